@@ -296,6 +296,14 @@ func Eq(a, b *Term) *Term {
 	if a.IsConst() && b.IsConst() {
 		return Bool(a.Val.Cmp(b.Val) == 0)
 	}
+	if a.Sort.Kind == SBV {
+		if isCaseTable(a) && b.IsConst() {
+			return mapLeaves(a, func(x *Term) *Term { return Eq(x, b) })
+		}
+		if isCaseTable(b) && a.IsConst() {
+			return mapLeaves(b, func(y *Term) *Term { return Eq(a, y) })
+		}
+	}
 	if a.Sort == BoolSort {
 		if a == True {
 			return b
@@ -320,11 +328,54 @@ func Neq(a, b *Term) *Term { return Not(Eq(a, b)) }
 
 // ---- bit-vector ops ----
 
+// constIteLeaves counts the leaves of t if t is a constant or an ite tree whose leaves are
+// all constants; 0 otherwise. Operations on such "case tables" are pushed to the leaves so
+// that indices and offsets that are one of a few constants stay syntactically constant.
+func constIteLeaves(t *Term) int {
+	if t.IsConst() {
+		return 1
+	}
+	if t.Op == "ite" {
+		a := constIteLeaves(t.Args[1])
+		if a == 0 {
+			return 0
+		}
+		b := constIteLeaves(t.Args[2])
+		if b == 0 {
+			return 0
+		}
+		return a + b
+	}
+	return 0
+}
+
+func isCaseTable(t *Term) bool {
+	if t.Op != "ite" {
+		return false
+	}
+	n := constIteLeaves(t)
+	return n >= 2 && n <= 8
+}
+
+// mapLeaves applies f to every constant leaf of a case table.
+func mapLeaves(t *Term, f func(*Term) *Term) *Term {
+	if t.Op == "ite" {
+		return Ite(t.Args[0], mapLeaves(t.Args[1], f), mapLeaves(t.Args[2], f))
+	}
+	return f(t)
+}
+
 func bvbin(op string, a, b *Term) *Term {
 	if a.Sort != b.Sort || a.Sort.Kind != SBV {
 		panic(fmt.Sprintf("%s sort mismatch %s vs %s", op, a.Sort, b.Sort))
 	}
 	w := a.Sort.W
+	if isCaseTable(a) && b.IsConst() {
+		return mapLeaves(a, func(x *Term) *Term { return bvbin(op, x, b) })
+	}
+	if isCaseTable(b) && a.IsConst() {
+		return mapLeaves(b, func(y *Term) *Term { return bvbin(op, a, y) })
+	}
 	if a.IsConst() && b.IsConst() {
 		x, y := a.Val, b.Val
 		r := new(big.Int)
@@ -486,6 +537,12 @@ func bvcmp(op string, a, b *Term) *Term {
 	if a == b {
 		return Bool(op == "bvule" || op == "bvsle")
 	}
+	if isCaseTable(a) && b.IsConst() {
+		return mapLeaves(a, func(x *Term) *Term { return bvcmp(op, x, b) })
+	}
+	if isCaseTable(b) && a.IsConst() {
+		return mapLeaves(b, func(y *Term) *Term { return bvcmp(op, a, y) })
+	}
 	return mk(&Term{Op: op, Args: []*Term{a, b}, Sort: BoolSort})
 }
 
@@ -589,6 +646,9 @@ func Select(arr, idx *Term) *Term {
 	if arr.Sort.Idx != idx.Sort {
 		panic(fmt.Sprintf("select index sort %s want %s", idx.Sort, arr.Sort.Idx))
 	}
+	if isCaseTable(idx) && (arr.Op == "store" || arr.Op == "ite") {
+		return mapLeaves(idx, func(i *Term) *Term { return Select(arr, i) })
+	}
 	for arr.Op == "store" {
 		if arr.Args[1] == idx {
 			return arr.Args[2]
@@ -615,6 +675,9 @@ func Store(arr, idx, val *Term) *Term {
 	}
 	if arr.Op == "store" && arr.Args[1] == idx {
 		arr = arr.Args[0]
+	}
+	if isCaseTable(idx) {
+		return mapLeaves(idx, func(i *Term) *Term { return Store(arr, i, val) })
 	}
 	return mk(&Term{Op: "store", Args: []*Term{arr, idx, val}, Sort: arr.Sort})
 }
